@@ -299,7 +299,8 @@ def stream_mul_exhaustive(ctx, ad, ns, triples_n):
                         mark_broken(ctx, 'correspondence:ps_mul_triples', f'{a} * {b} * {c} gave {out}')
                         kr = 0
                     g3.add(c_list([n, 1, 2, 3, kr] + list(ma) + list(mb) + list(mc) + mask_of(out[1], n)), f'{a} * {b} * {c} -> {out}')
-                    check_product_matrix(ctx, ad, 'ps_mul3', [a, b, c], r, qs)
+                    if n <= 2 or len(g3.rows) % 16 == 0:
+                        check_product_matrix(ctx, ad, 'ps_mul3', [a, b, c], r, qs)
     flush_rows(ctx, 'mulx', [g2, g3], budget=6000)
 
 
@@ -930,15 +931,24 @@ def stream_conjugation(ctx, ad, count, two_qubit_exhaustive):
                         ctx.count('conj_2q', (str(g), ma, order, which), True)
                         conj_case(ctx, ad, (UNITS[0], mask_items(ma)), [g(ad.q(order[0]), ad.q(order[1]))], [0, 1], which, 'conj_2q')
     if two_qubit_exhaustive:
-        # every two-qubit Clifford tableau reachable as (1q x 1q) . entangler classes . (1q x 1q) is large; sample products of 24x24 locals around each entangler
+        # all 11 520 two-qubit Cliffords: (C1 x C2) . E . (R^a x R^b), E in {1, CZ, ISWAP, SWAP}, R the X->Y->Z cycle
+        # (a, b range over 0..2 for CZ and ISWAP only); distinctness is measured: ctx.count is keyed by the tableau
         loc = cirq.SingleQubitCliffordGate.all_single_qubit_cliffords
-        for g in [cirq.CZ, cirq.ISWAP, cirq.SWAP, None]:
-            for l0 in loc:
-                for l1 in loc:
-                    ops = [l0(ad.q(0)), l1(ad.q(1))] + ([g(ad.q(0), ad.q(1))] if g is not None else [])
-                    for ma in ((1, 0), (3, 0), (0, 1), (0, 3), (2, 2)):
-                        ctx.count('conj_2q_local', (str(g), str(l0), str(l1), ma), True)
-                        conj_case(ctx, ad, (UNITS[0], mask_items(ma)), ops, [0, 1], 'conjugated_by', 'conj_2q_local')
+        R_ = cirq.SingleQubitCliffordGate.from_xz_map((cirq.Y, False), (cirq.X, False))
+        a0, a1 = ad.q(0), ad.q(1)
+        strings = [mask_items(m) for m in all_masks(2) if any(m)]
+        for ent, reps in ((None, [(0, 0)]), (cirq.CZ, [(a, b) for a in range(3) for b in range(3)]),
+                          (cirq.ISWAP, [(a, b) for a in range(3) for b in range(3)]), (cirq.SWAP, [(0, 0)])):
+            for (ra, rb) in reps:
+                pre = [R_(a0)] * ra + [R_(a1)] * rb + ([ent(a0, a1)] if ent is not None else [])
+                for l0 in loc:
+                    for l1 in loc:
+                        ops = pre + [l0(a0), l1(a1)]
+                        tab = cirq.CliffordGate.from_op_list(ops, [a0, a1]).clifford_tableau
+                        key = (tab.xs.tobytes(), tab.zs.tobytes(), tab.rs.tobytes())
+                        for items in rng.sample(strings, 2):
+                            ctx.count('conj_2q_all', key, True)
+                            conj_case(ctx, ad, (UNITS[0], items), ops, [0, 1], rng.choice(['conjugated_by', 'after']), 'conj_2q_all')
     for it in range(count):
         n = rng.choice([1, 2, 3, 3, 4, 5])
         qs = list(range(n))
@@ -1066,7 +1076,8 @@ def stream_rotations(ctx, ad, count):
             if not (close(m, ref) or (m.shape == ref.shape and phase_equal(m, ref))):
                 sig = 'psumexp:matrix-kron-of-factors' if overlapping else 'psumexp:matrix'
                 ctx.violation(sig, f'PauliSumExponential({psum}, {e}).matrix() has shape {m.shape} and is not the product of its rotation '
-                                   f'factors (shape {ref.shape}) even up to global phase: it takes the Kronecker product of the factor unitaries',
+                                   f'factors (shape {ref.shape}) even up to global phase'
+                                   + (': it takes the Kronecker product of the factor unitaries' if overlapping else ''),
                               dict(kind='psumexp_matrix', terms=[ser_ps(t) for t in tt], e=e))
 
 
@@ -1189,13 +1200,13 @@ def _run(ctx):
         mark_broken(ctx, 'table:PauliTables', err['PauliTables'])
     ctx.set_obligations(coq.compile_props('C14'))
     quick = ctx.tier == 'quick'
-    stream_mul_exhaustive(ctx, ad, [1, 2, 3], [1, 2])
-    stream_ps_random(ctx, ad, 150 if quick else 2500)
-    stream_dense(ctx, ad, 150 if quick else 2500, [1, 2] if quick else [1, 2, 3])
-    stream_sums(ctx, ad, 150 if quick else 2500)
-    stream_conjugation(ctx, ad, 150 if quick else 3000, not quick)
-    stream_rotations(ctx, ad, 100 if quick else 1500)
-    stream_expectation(ctx, ad, 100 if quick else 1500)
+    stream_mul_exhaustive(ctx, ad, [1, 2, 3], [1, 2] if quick else [1, 2, 3])
+    stream_ps_random(ctx, ad, 300 if quick else 4000)
+    stream_dense(ctx, ad, 300 if quick else 4000, [1, 2] if quick else [1, 2, 3])
+    stream_sums(ctx, ad, 300 if quick else 4000)
+    stream_conjugation(ctx, ad, 300 if quick else 4000, not quick)
+    stream_rotations(ctx, ad, 200 if quick else 2500)
+    stream_expectation(ctx, ad, 200 if quick else 2500)
 
 
 def replay(ctx, data):
